@@ -106,6 +106,15 @@ def main():
         execlog = os.path.join(base, "execlog")
         env["VERIF_EXECLOG"] = execlog
         hdrs = {"mo3": b"MO3" + bytes(200), "rar": b"Rar!\x1a\x07\x00" + bytes(200), "mo3-short": b"MO3" + bytes(50), "other": b"XYZ" + bytes(200)}
+        # containers the built-in depackers open, whose PAYLOAD begins with a helper signature: the decision is about the file named by the
+        # path, so no helper may run for these (and the helper, if it ran, would be given the outer file)
+        import gzip as _gz, bz2 as _bz, zipfile as _zf, io as _io
+        for nm, inner in (("mo3", b"MO3" + bytes(range(1, 200))), ("rar", b"Rar!\x1a\x07\x00" + bytes(range(1, 200)))):
+            hdrs["gzip-of-" + nm] = _gz.compress(inner, 6, mtime=0)
+            hdrs["bzip2-of-" + nm] = _bz.compress(inner, 1)
+            zb = _io.BytesIO()
+            with _zf.ZipFile(zb, "w", _zf.ZIP_DEFLATED) as z: z.writestr("song.bin", inner)
+            hdrs["zip-of-" + nm] = zb.getvalue()
         nd = 0
         for tag, blob in hdrs.items():
             p = os.path.join(moddir, "file %s;.bin" % tag)
@@ -122,7 +131,7 @@ def main():
                 if forked and ok:
                     ck.nontrivial(("exec", tag, e))
                     argv = [bytes.fromhex(x) for x in ex[0].split()[1:]] if ex and ex[0].startswith("EXEC") else None
-                    exp = ([b"unmo3", b"-s", p.encode(), b"STDOUT"] if tag.startswith("mo3") else
+                    exp = ([b"unmo3", b"-s", p.encode(), b"STDOUT"] if "mo3" in tag else
                            [b"unrar", b"p", b"-inul", b"-xreadme", b"-x*.diz", b"-x*.nfo", b"-x*.txt", b"-x*.exe", b"-x*.com", p.encode()])
                     if argv != exp:
                         ok = False
